@@ -414,7 +414,7 @@ func (e *twoPCEngine) close() {
 }
 
 func (e *twoPCEngine) Rule() string {
-	return "C28: one transaction of 1-4 put/delete mutations over 1-3 regions (every primary choice and mutation order), optional older committed values / a foreign lock / a newer write on its keys; the real client's RPCs are delivered, dropped, answered after the reply is lost, answered NotLeader or re-delivered one by one, with CheckTxnStatus (current ts below/at/above lock expiry and commit version) and ResolveLocks of a second client, and prewrites / rollbacks of other transactions on the same keys, interleaved at any point, client restarts with the same versions, then full resolution and a read of every key at the commit version; non-trivial = a fault or a resolver step happened before the client finished and the final observation is settled (no lock left) on a transaction with at least one put"
+	return "C28: one transaction of 1-4 put/delete mutations over 1-3 regions (every primary choice and mutation order), optional older committed values / a foreign lock / a newer write on its keys; the real client's RPCs are delivered, dropped, answered after the reply is lost, answered NotLeader or re-delivered one by one, with CheckTxnStatus (current ts below/at/above lock expiry and commit version) and ResolveLocks of a second client, and the requests of other clients' transactions on the same keys (prewrite, commit, rollback, resolve, check-status; unique timestamps), interleaved at any point, client restarts with the same versions, then full resolution and a read of every key at the commit version; non-trivial = a fault or a resolver step happened before the client finished and the final observation is settled (no lock left) on a transaction with at least one put"
 }
 
 func (e *twoPCEngine) Extra() map[string]any {
@@ -865,29 +865,23 @@ func (e *twoPCEngine) execOnce(ops []string) ([]string, bool) {
 			} else {
 				out[i] = fmt.Sprintf("ok:%d", n)
 			}
-		case "foreign", "foreignabort":
-			// another transaction prewrites one of the keys / is rolled back on it
+		case "foreign", "foreignabort", "foreigncommit", "foreignresolve", "foreigncheck":
+			// a request of another transaction (start ts toks[2]) on one key, straight to the store
 			if c.status == "none" {
 				out[i] = "no-txn"
 				break
 			}
 			k, fts := int(num(1)), num(2)
-			own := false
-			for _, id := range c.keyIDs {
-				if id == k {
-					own = true
-				}
+			if _, ok := c.regions[k]; !ok {
+				c.regions[k] = 1
 			}
-			if !own || fts == c.start || (toks[0] == "foreignabort" && fts == c.cv) {
-				out[i] = "skip"
-				break
-			}
-			if toks[0] == "foreign" {
+			switch toks[0] {
+			case "foreign":
 				pr, err := e.raw.KvPrewrite(bg, &pb.KvPrewriteRequest{Context: c.ctxFor(k), Request: &pb.PrewriteRequest{
 					Mutations:   []*pb.Mutation{{Op: pb.Mutation_Put, Key: c.key(k), Value: []byte(strconv.FormatUint(num(4), 10))}},
 					PrimaryLock: c.key(k), StartVersion: fts, LockTtl: num(3)}})
 				out[i] = classifyReply(pr, err)
-			} else {
+			case "foreignabort":
 				rr, err := e.raw.KvBatchRollback(bg, &pb.KvBatchRollbackRequest{Context: c.ctxFor(k), Request: &pb.BatchRollbackRequest{
 					Keys: [][]byte{c.key(k)}, StartVersion: fts}})
 				switch {
@@ -897,6 +891,39 @@ func (e *twoPCEngine) execOnce(ops []string) ([]string, bool) {
 					out[i] = "err:" + keyErrClass(rr.GetResponse().GetError())
 				default:
 					out[i] = "ok"
+				}
+			case "foreigncommit":
+				cr, err := e.raw.KvCommit(bg, &pb.KvCommitRequest{Context: c.ctxFor(k), Request: &pb.CommitRequest{
+					Keys: [][]byte{c.key(k)}, StartVersion: fts, CommitVersion: num(3)}})
+				out[i] = classifyReply(cr, err)
+			case "foreignresolve":
+				rr, err := e.raw.KvResolveLock(bg, &pb.KvResolveLockRequest{Context: c.ctxFor(k), Request: &pb.ResolveLockRequest{
+					Keys: [][]byte{c.key(k)}, StartVersion: fts, CommitVersion: num(3)}})
+				switch {
+				case err != nil:
+					out[i] = "rpcerr"
+				case rr.GetResponse().GetError() != nil:
+					out[i] = "err:" + keyErrClass(rr.GetResponse().GetError())
+				default:
+					out[i] = fmt.Sprintf("ok:%d", rr.GetResponse().GetResolvedLocks())
+				}
+			case "foreigncheck":
+				cur := num(3)
+				rr, err := e.raw.KvCheckTxnStatus(bg, &pb.KvCheckTxnStatusRequest{Context: c.ctxFor(k), Request: &pb.CheckTxnStatusRequest{
+					PrimaryKey: c.key(k), LockTs: fts, CurrentTs: cur, CallerStartTs: cur, RollbackIfNotExist: true}})
+				resp := rr.GetResponse()
+				switch {
+				case err != nil:
+					out[i] = "rpcerr"
+				case resp.GetError() != nil:
+					out[i] = keyErrClass(resp.GetError())
+				case resp.GetCommitVersion() > 0:
+					out[i] = fmt.Sprintf("committed:%d", resp.GetCommitVersion())
+				case resp.GetAction() == pb.CheckTxnStatusAction_CheckTxnStatusTTLExpireRollback,
+					resp.GetAction() == pb.CheckTxnStatusAction_CheckTxnStatusLockNotExistRollback:
+					out[i] = "rolledback"
+				default:
+					out[i] = "alive"
 				}
 			}
 		case "get":
@@ -958,7 +985,7 @@ func (e *twoPCEngine) Nontrivial(ops, impl, model, spec []string) bool {
 		case "txn":
 			running = strings.HasSuffix(impl[i], "st=running")
 			hasPut = strings.Contains(op, ":p:")
-		case "drop", "lose", "notleader", "redeliver", "check", "resolve", "restart", "foreign", "foreignabort":
+		case "drop", "lose", "notleader", "redeliver", "check", "resolve", "restart", "foreign", "foreignabort", "foreigncommit", "foreignresolve", "foreigncheck":
 			if running {
 				fault = true
 			}
@@ -1064,29 +1091,39 @@ func (e *twoPCEngine) Gen(r *hlib.Rand, tier string) []string {
 	faultAt := r.Intn(maxRPC + 1)
 	faultKind := hlib.Pick(r, []string{"drop", "lose", "notleader", "none", "check", "check"})
 	steps := 0
-	// other transactions: unused, unique start timestamps
-	foreignTs := []uint64{16, 17, 18, 19, 22, 23, 24, 25}
+	// other clients' transactions: unused, unique (start, commit) timestamp pairs; each of them
+	// prewrites one of our keys and later commits, gives up, checks its status or gets resolved
+	foreignTs := [][2]uint64{{16, 17}, {18, 19}, {22, 23}, {24, 25}, {26, 27}, {28, 29}}
 	type fw struct {
-		k  int
-		ts uint64
+		k       int
+		ts, cts uint64
 	}
 	var foreigns []fw
 	foreign := func() {
 		if len(foreignTs) == 0 {
 			return
 		}
-		ts := foreignTs[0]
+		p := foreignTs[0]
 		foreignTs = foreignTs[1:]
 		k := r.Intn(nKeys)
-		foreigns = append(foreigns, fw{k, ts})
-		ops = append(ops, fmt.Sprintf("foreign %d %d %d %d", k, ts, hlib.Pick(r, []uint64{0, 4}), 900+k))
+		foreigns = append(foreigns, fw{k, p[0], p[1]})
+		ops = append(ops, fmt.Sprintf("foreign %d %d %d %d", k, p[0], hlib.Pick(r, []uint64{0, 4}), 900+k))
 	}
 	foreignAbort := func() {
 		if len(foreigns) == 0 {
 			return
 		}
 		f := hlib.Pick(r, foreigns)
-		ops = append(ops, fmt.Sprintf("foreignabort %d %d", f.k, f.ts))
+		switch x := r.Intn(100); {
+		case x < 45:
+			ops = append(ops, fmt.Sprintf("foreigncommit %d %d %d", f.k, f.ts, f.cts))
+		case x < 65:
+			ops = append(ops, fmt.Sprintf("foreignabort %d %d", f.k, f.ts))
+		case x < 80:
+			ops = append(ops, fmt.Sprintf("foreigncheck %d %d %d", f.k, f.ts, hlib.Pick(r, []uint64{f.ts, f.ts + 4, 1000})))
+		default:
+			ops = append(ops, fmt.Sprintf("foreignresolve %d %d %d", f.k, f.ts, hlib.Pick(r, []uint64{0, f.cts})))
+		}
 	}
 	env := func() {
 		switch x := r.Intn(115); {
